@@ -899,3 +899,27 @@ def discover_parse_wrappers(prog):
         if f not in SER_PARSE:
             SER_PARSE.append(f)
     return found
+
+
+def def_blocks_of(ctx, operand, depth=8):
+    """blocks where the value an operand's local can hold is *computed*: its definitions followed
+    backwards through plain whole-local moves/copies; a definition that is anything else (a call, an
+    aggregate, a constant, a read of a field / parameter / captured variable) is a root"""
+    out = set()
+    if operand.is_const or operand.place is None:
+        return out
+    work = [(operand.place.local, 0)]
+    seen = set()
+    while work:
+        l, d = work.pop()
+        if l in seen or d > depth:
+            continue
+        seen.add(l)
+        for (kind, bb, idx, obj) in ctx.origins.defs.get(l, []):
+            if kind == "stmt" and obj.rv.k in ("use", "cast") and obj.rv.ops and not obj.rv.ops[0].is_const \
+                    and obj.rv.ops[0].place is not None and not obj.rv.ops[0].place.proj \
+                    and obj.rv.ops[0].place.local > ctx.body.argc and not obj.place.proj:
+                work.append((obj.rv.ops[0].place.local, d + 1))
+            else:
+                out.add(bb)
+    return out
